@@ -1,7 +1,9 @@
 //! mon-signer: C20 -- a signer signs each beacon once, with its epoch key, acceptably to aggregators.
-//! REAL signer runtimes (state machine, runner, services, file-backed sqlite, KES signer, HTTP
-//! client) against the REAL aggregator of mon-agg's `Sim` in the same process, through a loopback
-//! HTTP front that injects faults and logs the boundary.
+//! REAL signer runtimes (state machine + runner over the container the signer's own
+//! `DependenciesBuilder::build()` returns: certifier and signature-publisher stack, HTTP client,
+//! stores over file-backed sqlite, KES signer ...; see signer.rs for what is a double) against the
+//! REAL aggregator of mon-agg's `Sim` in the same process, through a loopback HTTP front (one
+//! listener per real signer) that injects faults and logs the boundary.
 //! Every real signer has its own chain observer double (its Cardano node, which may lag behind the
 //! world's at an epoch change); the aggregator may be restarted with changed protocol parameters,
 //! and the model takes the parameters of every registration round from the aggregator's own
